@@ -127,6 +127,31 @@ def _occurs(t, x):
     return False
 
 
+def _witness(poly, hyps, tries=4):
+    """a model of the hypotheses at which poly != 0, or None"""
+    sol = z3.Solver()
+    sol.set("timeout", 3000)
+    sol.add(*hyps)
+    for k in range(tries):
+        if sol.check() != z3.sat:
+            return None
+        m = sol.model()
+        v = m.eval(poly, model_completion=True)
+        v = z3.simplify(v)
+        if z3.is_rational_value(v) or z3.is_algebraic_value(v):
+            if not (z3.is_rational_value(v) and v.numerator_as_long() == 0):
+                return smt.model_to_dict(m), str(v)
+        # another model: move one real variable away from its current value
+        moved = False
+        for d in m.decls():
+            if d.arity() == 0 and d.range() == z3.RealSort():
+                sol.add(d() != m[d])
+                moved = True
+        if not moved:
+            return None
+    return None
+
+
 def prove_identity(goal, hyps, tier="quick", name="", timeout_ms=None):
     t0 = time.time()
     if not z3.is_eq(goal):
@@ -191,6 +216,12 @@ def prove_identity(goal, hyps, tier="quick", name="", timeout_ms=None):
         if z3.is_rational_value(ps) and ps.numerator_as_long() == 0:
             detail.append("case %s: polynomial identity by normalisation" % (lits,))
             continue
+        # a polynomial that does not normalise to zero is usually NOT identically zero: look for a witness by evaluating it on
+        # models of the hypotheses alone (cheap), before asking the non-linear solver for validity
+        wit = _witness(ps, h2)
+        if wit is not None:
+            return core.Result(core.REFUTED, "z3", "case %s: cleared-denominator identity fails at a point satisfying the hypotheses (value %s)" % ([str(l) for l in lits], wit[1]),
+                               model=wit[0], time_s=time.time() - t0)
         rr = smt.prove(ps == 0, h2, tier=tier, name=name + ":poly", timeout_ms=timeout_ms)
         if rr.status != core.PROVED:
             rr.detail = "case %s: cleared-denominator identity: %s" % (lits, rr.detail)
